@@ -4,7 +4,7 @@ cd /verif
 for d in seeded/*/; do
   n=$(basename $d); p=$(python3 -c "import json; print(json.load(open('$d/meta.json'))['breaks_property'])")
   git -C /repo diff --quiet || { echo "/repo dirty, stop"; exit 2; }
-  git -C /repo apply $d/patch.diff 2>/dev/null || { echo "$n: patch does not apply"; continue; }
+  git -C /repo apply /verif/$d/patch.diff 2>/dev/null || { echo "$n: patch does not apply"; continue; }
   ./verify $p --tier quick > /tmp/allseeds-$n.log 2>&1; RC=$?
   git -C /repo checkout -- .
   echo "$n $p exit=$RC viol=$(grep -c '^VIOLATION' /tmp/allseeds-$n.log) $(grep '^VIOLATION' /tmp/allseeds-$n.log | head -1 | sed 's/.*replay=//' | cut -c1-80)"
